@@ -119,12 +119,15 @@ def io_error_kind_stub(prog):
 
 def earlier_kept(w):
     """whatever was queued for writing before the step is still queued, in place (nothing dropped from the front, nothing cleared)"""
-    return z3.And(w.outbuf.abs == 0, z3.UGE(w.outbuf.len, w.outbuf.items[0]['len'])) if w.outbuf.items else z3.BoolVal(True)
+    early = [it for it in w.outbuf.items if it.get('kind') == 'earlier']
+    if not early:
+        return z3.BoolVal(False)      # the buffer was cleared: what was queued earlier is gone
+    return z3.And(w.outbuf.abs == 0, z3.UGE(w.outbuf.len, early[0]['len']))
 
 
 def new_items(w, prefilled=1):
     """frames pushed to the output buffer by the code under test (everything after the pre-existing item)"""
-    return w.outbuf.items[prefilled:]
+    return [it for it in w.outbuf.items if it.get('kind') != 'earlier']
 
 
 def item_desc(prog, it):
